@@ -16,9 +16,17 @@ use subtle::ConstantTimeEq;
 #[no_mangle]
 pub static mut CT_MARKER: u64 = 0;
 
+static mut CT_TRAP: bool = false;
+
 #[inline(never)]
 fn mark(v: u64) {
-    unsafe { std::ptr::write_volatile(std::ptr::addr_of_mut!(CT_MARKER), v) }
+    unsafe {
+        std::ptr::write_volatile(std::ptr::addr_of_mut!(CT_MARKER), v);
+        // under the ptrace single-stepper (CT_TRAP=1) every marker also stops the process
+        if std::ptr::read_volatile(std::ptr::addr_of!(CT_TRAP)) {
+            libc::raise(libc::SIGUSR1);
+        }
+    }
 }
 
 fn unhex(s: &str) -> Vec<u8> {
@@ -37,6 +45,9 @@ pub const OPS: &[&str] = &[
 
 fn main() {
     let op = std::env::args().nth(1).unwrap_or_default();
+    if std::env::var("CT_TRAP").is_ok() {
+        unsafe { CT_TRAP = true };
+    }
     if op == "--list" {
         println!("{}", OPS.join(" "));
         return;
